@@ -136,14 +136,15 @@ def transform_cylindrical_to_spherical(rho_phi_z):
     rho, phi, z = rho_phi_z
     r = np.hypot(rho, z)
     theta = np.arctan2(rho, z)
-    return _stack_coordinates(r, theta, phi)
+    # (the azimuth in [0, 2 pi), as the conversions from cartesian give it)
+    return _stack_coordinates(r, theta, phi % (2*np.pi))
 
 
 def transform_spherical_to_cylindrical(r_theta_phi):
     r, theta, phi = r_theta_phi
     rho = r * np.sin(theta)
     z = r * np.cos(theta)
-    return _stack_coordinates(rho, phi, z)
+    return _stack_coordinates(rho, phi % (2*np.pi), z)
 
 
 def keep_in_same_coordinates(coords): return _stack_coordinates(*coords)
